@@ -24,6 +24,21 @@ claimed = {
    'Exhaustive BFS (canonical-state dedup) of all operation sequences over a colliding seqno/size/capacity alphabet up to the stated depth on the real packetcache.Cache, compared step by step with a bounded-FIFO reference; plus every schedule with <=2 (thorough: 3) preemptions of one writer and two readers with all Cache/entry fields monitored for happens-before races.',
    'Packet contents are opaque to the cache; result buffers are BufSize long; bounds: depth, alphabet and preemption bound as reported in evidence.',
    'DESIGN.md §3 C05'),
+ 'C06': ('A', 'explicit-state BFS over arrival histories through the real readLoop with NACK capture and statistics sampling; full enumeration for ToBitmap and nackWriter',
+   'BFS over arrival histories (in order, gaps of 1/2/17/33, late, duplicate, bursts up to 255/65536, backward restarts, forward jumps) fed to the real readLoop through a pion TrackRemote shell in three packet-rate regimes, for start seqnos around the wrap and the 32768 horizon; every upstream NACK is compared with the reference set of received positions (never received, never at/beyond the newest, never twice, holes in a steady stream are requested); statistics sampled with/without reset through the real sendUpRTCP (received<=expected, fraction, total lost, monotone extended seqno); all subsets of an 18/22-element window through ToBitmap; nackWriter filtering over hole sets x keyframe positions x all subsets of requested numbers.',
+   'Rate regime fixed per configuration on the virtual clock; liveness demanded only in steady streams; downstream-triggered NACKs checked for what the mechanism promises (see DESIGN.md C06 scoping).', 'DESIGN.md §3 C06'),
+ 'C07': ('D', 'explicit-state BFS over signalling sequences with real PeerConnections through the real push/subscribe path; per-message and quiescence oracles against a reference selection',
+   'BFS from the empty state and three non-initial presets (a fully published audio+simulcast stream with subscribers holding different requests in one or two groups) over join/request/requestStream/offer/replace/track/close/abort/answer/leave/kick/unpresent and delayed-push task firings; every offer (recipient membership and group, origin, label, requested kinds) and close (justification) is checked when written; at quiescence each subscriber holds exactly the reference tracks of every live stream and nothing of ended ones; one subscriber\'s abort/request never affects another.',
+   'Tracks appear through the real OnTrack closure with synthetic remote tracks (no media); answers come from a standard pion client; queues drained after every message.', 'DESIGN.md §3 C07'),
+ 'C10': ('B+D', 'schedule enumeration with preemption bounding of concurrent join/leave/lock/reload on the real group layer with the admission decision observed under the group lock; BFS of the protocol-visible admission',
+   'For 11 group configurations (locked, max-clients 1/2/3, inside/before/after the window, autolock, autokick, both) all pairs and selected triples of 9 thread bodies (joins of users/operator/duplicate id, leaves, lock, unlock, reload) under every schedule with <=2/3 preemptions; the Joined(join) callback, invoked while AddClient holds the group lock, records the lock flag, membership and operator count the decision was based on; plus BFS depth 6/8 of join/leave/disconnect/lock/unlock through the real websocket handlers per configuration (joined{join|fail}, user{add}, lock state, membership) and the redirect case.',
+   'Clients are recording fakes whose callbacks do not block; kicked fakes stay members (their loop never runs).', 'DESIGN.md §3 C10'),
+ 'C13': ('B', 'stateless schedule enumeration with iterative preemption bounding under a cooperative scheduler; vector-clock happens-before race monitor; deadlock = no enabled thread',
+   '18 programs of 1-3 threads with 1-3 real lifecycle calls each (AddClient, DelClient, SetLocked, reload, GetDescription, stats.GetGroups, group.Update, group.Delete, WhipClient.Close/Permissions, disk-writer Kick, Shutdown, data/history/status readers) plus two action-queue programs (two producers and the clientLoop consumer pattern), every schedule with <=3 (thorough 5) preemptions; deadlocks, unsynchronised accesses to the monitored Group/registry/configuration/queue fields, membership consistency, exactly-once and per-producer order of queued items.',
+   'Scheduling points at mutex, atomic, file and unbounded channel operations of the instrumented packages; happens-before through raw channels only for spawn/join.', 'DESIGN.md §3 C13'),
+ 'C20': ('A', 'exhaustive enumeration of delivery histories (bounded permutations, duplications, gaps with/without cache recovery, sender-report positions, sizes, pre-rolls) through the real disk writer; files parsed back with ebml-go',
+   'For 204 stream configurations (VP8/VP9/H264/opus, 3-6 frames of 1-3 packets, payload sizes, timestamp and seqno wrap) every permutation with displacement <=2/3, every single duplication, every choice of one or two undelivered packets present or absent in the real packet cache, a sender report at every position, Close vs publisher departure, and pre-rolls that put the sample builder ring just before its wrap; each history is one execution of the real diskwriter through its public API; the recorded blocks are compared with independently depacketised frames (byte identity, no repeats, order, timestamps, completeness after the first keyframe, container well-formedness, shared origin, flush on stop).',
+   'Recoverable = in the cache when the gap is first noticed; exemptions before the first keyframe as stated in evidence; multi-NAL H264 access units not in the alphabet.', 'DESIGN.md §3 C20'),
  'C08': ('A+D', 'full product enumeration of descriptions x credentials through readDescription/GetPermission/AddClient/handleClientMessage vs an independent reference; BFS over moderation histories; tool round trip',
    'Full Cartesian products of group descriptions (password encodings, roles, wildcard user, flags) x credentials through the real readDescription + GetPermission, group.AddClient with harness clients, and the real websocket join handler; BFS over moderation-action histories followed by fresh logins (role table aliasing); enumeration of galenectl makePassword parameters round-tripped through Password.Match.',
    'Second user of the map fixed; pbkdf2 trailing-NUL and 1-byte keys are inherent to the primitive (stated in evidence).', 'DESIGN.md §3 C08'),
